@@ -193,7 +193,8 @@ class LocationAction(object):
     def __get_int(self, name: str, default_value: int):
         try:
             return int(self.__config.get(name, default_value))
-        except ValueError:
+        except (ValueError, TypeError, OverflowError):
+            # not a number at all - unparsable text, but also None, a list or infinity from a registration in code
             return default_value
 
     def __str__(self):
